@@ -12,8 +12,8 @@ import (
 )
 
 // Process sharding: the parent re-executes the test binary N times with VERIF_CHILD=<section>. Every child expands
-// the top of the choice tree identically (deterministic bodies) until the frontier of unexecuted prefixes is wide
-// enough, takes the frontier entries j with j % N == i, and explores those subtrees completely. Counts are exact:
+// the top of the choice tree identically (deterministic bodies) until the frontier of unexecuted prefixes has at least
+// N entries (a little more when that is cheap), takes the frontier entries j with j % N == i, and explores those subtrees completely. Counts are exact:
 // the shared top part is counted by shard 0 only and the subtrees are disjoint.
 
 var skipPrefixes = map[string]bool{}
@@ -38,7 +38,7 @@ func runChild(sec *Section, body func(*X), o Opts) {
 		}
 	}
 	frontier := [][]int{nil}
-	for round := 0; round < 8 && len(frontier) < 16*n && len(frontier) > 0; round++ {
+	for round := 0; round < 8 && len(frontier) > 0 && (len(frontier) < n || (len(frontier) < 4*n && round < 3)); round++ {
 		var next [][]int
 		for _, pre := range frontier {
 			if skipPrefixes[fmt.Sprint(pre)] {
